@@ -98,6 +98,10 @@ for row, tier in ((0, "quick"), (1, "thorough"), (2, "thorough"), (3, "quick")):
 H("protocol", "c01_and_gate_table_n2", needs_segment=["garbler_rows", "evaluator_rows", "garbler_row_labels"],
   what="authenticated garbled table of one AND gate, garbler + evaluator rows + row labels: row_i bits XOR to (a^lx)(b^ly)^lg, row shares carry valid MACs (incl. row-3 key correction), row label ^ evaluator MAC == label0 ^ value*delta",
   bounds="n=2, all bits/MACs/keys/both deltas/label symbolic 128-bit, all 4 rows", functions=["mpc::protocol::garble (garbler row construction, evaluator row construction, row labels)"], panic_prop="C01")
+for row in (0, 1, 2, 3):
+    H("protocol", f"c01_and_gate_full_n3_row{row}", tier="thorough", timeout=2400, mem_gb=30, needs_segment=["garbler_rows", "evaluator_rows", "garbler_row_labels", "evaluate_and_arm_n3"],
+      what="one AND gate end to end for n=3 (two garblers, evaluator): rows + row labels + the evaluator's AND arm composed: honest rows are accepted, the evaluator obtains the masked AND value and label0 ^ value*delta for both garblers",
+      bounds=f"n=3, selected row {row}, all bits/keys/global keys/labels symbolic 128-bit (MAC relation and AND relation assumed)", functions=["mpc::protocol::garble (row construction, labels)", "mpc::protocol::evaluate (AND arm)"], panic_prop="C01", stubs=["garble::decrypt -> returns the plaintexts of the garblers' rows"])
 for k, b_, tier, to in ((4, 2, "quick", 600), (5, 2, "thorough", 600), (3, 1, "thorough", 600), (4, 3, "quick", 600), (3, 2, "quick", 600)):
     H("protocol", f"c01_init_and_shares_chunks_k{k}_b{b_}", tier=tier, timeout=to, needs_segment=["init_and_shares_loop"],
       what="init_and_shares(): chunks written for gen_auth_bits == chunk_size_iter(and_ops, batch)", bounds=f"{k} AND gates, batch size {b_} (live-in of the cut loop)", functions=["mpc::protocol::init_and_shares (loop segment)", "mpc::protocol::chunk_size_iter"], panic_prop="C01", stubs=["FileOrMemBuf::write_chunk -> log of chunk lengths (textual substitution)"])
@@ -229,7 +233,7 @@ PROPS["C01"] = dict(
     outside="totals < 2^40; at most 10 chunks (implied by the batch-size lemma); small-value iterator class total<=24/chunk<=8.",
     assumptions=[FMT, TRACING, "flush pattern 'push; if len >= batch flush; ...; if !empty flush' re-stated in c01_flush_pattern_matches_chunk_iter"],
     harnesses=[h for h in by_prefix("c01_") if not h["name"].endswith("__c10")] + hs("c03_evaluate_and_arm_n2_row0__c01", "c03_evaluate_and_arm_n2_row3__c01", "c02_output_tail_n2_regs01__c01", "c02_output_tail_n2_regs11__c01"),
-    segments=["output_tail", "init_and_shares_loop", "garbler_loop", "garbler_rows", "evaluator_rows", "garbler_row_labels", "evaluate_and_arm"],
+    segments=["output_tail", "evaluate_and_arm_n3", "init_and_shares_loop", "garbler_loop", "garbler_rows", "evaluator_rows", "garbler_row_labels", "evaluate_and_arm"],
 )
 
 PROPS["C02"] = dict(
